@@ -16,10 +16,10 @@ import (
 )
 
 type c15Case struct {
-	S     vScenario `json:"s"`
-	X     string    `json:"x"`
-	Flags []string  `json:"flags"` // a drawn combination of presentation flags for reg
-	Layout string   `json:"layout,omitempty"` // date format ("" = default); some contain a literal percent sign
+	S      vScenario `json:"s"`
+	X      string    `json:"x"`
+	Flags  []string  `json:"flags"`            // a drawn combination of presentation flags for reg
+	Layout string    `json:"layout,omitempty"` // date format ("" = default); some contain a literal percent sign
 }
 
 // vColourMap strips escape codes and returns, per byte of the plain text, the
